@@ -875,7 +875,9 @@ class Server:
         :rtype: (:py:class:`str`, :py:class:`str`)
         """
         line = await stream.readline()
-        if not line:
+        if not line.endswith(b"\n"):
+            # end of stream, possibly in the middle of a command: a command
+            # which was cut off is not carried out
             raise ConnectionResetError
         try:
             s = line.decode(encoding=self.encoding).rstrip()
